@@ -1368,7 +1368,7 @@ def fmatch_worker(a):
         cnt("gradients_validated_by_finite_differences")
         c["cseed"] = cseed
         # frames_per_block larger than the trajectory: documented error exit
-        c["too_few"] = bool(g.r.rand() < 0.04)
+        c["too_few"] = bool(g.r.rand() < 0.04) and not many
         wd = os.path.join(scratch, "f%d_%d" % (shard, ci))
         os.makedirs(wd, exist_ok=True)
         files = fm_files(c)
@@ -1419,7 +1419,7 @@ def fmatch_worker(a):
             cnt("many_eq/equations_carrying_tail_only_samples",
                 mm["equations_carrying_tail_only_samples"])
             many_list.append("N=%d mod=%d %s %s %s tail_eq=%d" % (
-                N_, N_ % 4096, mm["kind"], mm["variant"],
+                N_, N_ % 4096 if N_ > 4096 else 0, mm["kind"], mm["variant"],
                 "constrained" if c["constrained"] else "plain",
                 mm["equations_carrying_tail_only_samples"]))
         if family == "irregular-grid":
